@@ -65,7 +65,7 @@ def run_case(case):
         try:
             r = render(sp)
         except InvalidDefinition as e:
-            raise HarnessError(f"invalid rendering: {e}")
+            return outcome(False, "C15:valid-definition-rejected", f"rendering #{n} ({summ(style)}): the class statement raised InvalidDefinition: {e}", case=dict(case, styles=[style]))
         try:
             from ..gen import is_async_spec
 
